@@ -3,6 +3,7 @@ package c06
 import (
 	"bytes"
 	"fmt"
+	"strings"
 	"testing"
 	"time"
 
@@ -26,6 +27,8 @@ type Case struct {
 	// Follow is the shape of the follow-up transaction's MAIL command: "" bare, "body" with
 	// BODY=8BITMIME, "size" with its own truthful SIZE, "size+body", "rset+body" (RSET first).
 	Follow string `json:"follow,omitempty"`
+	// Lead is the number of empty lines the big message starts with (its "headers" are then empty).
+	Lead int `json:"lead,omitempty"`
 }
 
 var prop = hx.Prop[Case]{
@@ -57,6 +60,7 @@ var prop = hx.Prop[Case]{
 		c.BareLF = rapid.Bool().Draw(t, "barelf")
 		c.Size = rapid.SampledFrom([]string{"", "", "true", "under", "over", "huge", "junk"}).Draw(t, "size")
 		c.Extra = rapid.SampledFrom([]string{"", "", "discard", "other"}).Draw(t, "extra")
+		c.Lead = rapid.SampledFrom([]int{0, 0, 0, 1, 2, 5}).Draw(t, "lead")
 		c.Follow = rapid.SampledFrom([]string{"", "", "body", "body", "size", "size+body", "rset+body"}).Draw(t, "follow")
 		return c
 	},
@@ -65,11 +69,11 @@ var prop = hx.Prop[Case]{
 
 // build makes a message whose wire size (hi) is exactly target when possible.
 func build(c Case) []byte {
-	hdr := []byte("Subject: size test\r\n\r\n")
 	nl := "\r\n"
 	if c.BareLF {
 		nl = "\n"
 	}
+	hdr := []byte(strings.Repeat(nl, c.Lead) + "Subject: size test\r\n\r\n")
 	room := c.Target - len(hdr) - c.Lines*len(nl)
 	if room < 0 {
 		room = 0
@@ -115,7 +119,11 @@ func run(c Case) *hx.Outcome {
 			boxes = append(boxes, "big2")
 		}
 		for _, b := range boxes {
-			e := &hx.EMsg{Mailbox: b, From: (&hx.Addr{Address: "s@a.test"}).Mail(), To: to, Subject: "size test", Sender: "s@a.test", Data: tx}
+			subject := "size test"
+			if c.Lead > 0 {
+				subject = "" // the header block is empty, "Subject:" is body text
+			}
+			e := &hx.EMsg{Mailbox: b, From: (&hx.Addr{Address: "s@a.test"}).Mail(), To: to, Subject: subject, Sender: "s@a.test", Data: tx}
 			if !t0.IsZero() {
 				e.Helo, e.NotBefo, e.NotAfter = "c.test", t0, time.Now()
 			}
